@@ -249,6 +249,43 @@ theorem C17_hist_follows_definition_validating : ∀ (ops : List Op) (o : Obj), 
         congr 1
     | _ => rfl
 
+/-- The invariant the validating getter of the current source needs (`OffCoherent`: a memo starts at the current offset) is
+    kept by EVERY operation: queries / reads store the table of the current offset, both setters drop the memo, in-place
+    edits of elements or of the list leave offset and memo alone. -/
+theorem C17_offCoherent_step (o : Obj) (op : Op) (h : OffCoherent o) : OffCoherent (stepWith true o op).2 := by
+  cases op with
+  | query ts =>
+    by_cases hts : ts = []
+    · simpa [stepWith, hts] using h
+    · intro tb htb
+      simp only [stepWith, hts, if_false, fillWith, if_true, Option.some.injEq] at htb
+      subst htb
+      simp [stepWith, hts, initSteps]
+  | readTable =>
+    intro tb htb
+    simp only [stepWith, fillWith, if_true, Option.some.injEq] at htb
+    subst htb
+    simp [stepWith, initSteps]
+  | setOff off => intro tb htb; simp [stepWith] at htb
+  | setEs es cls => intro tb htb; simp [stepWith] at htb
+  | elDur i d => intro tb htb; exact h tb htb
+  | elState i s => intro tb htb; exact h tb htb
+  | appendInPlace e c => intro tb htb; exact h tb htb
+  | fresh es cls off => intro tb htb; simp [stepWith, Obj.fresh] at htb
+  | keep => exact h
+
+/-- the object after a history -/
+def finalWith (v : Bool) (o : Obj) : List Op → Obj
+  | [] => o
+  | op :: ops => finalWith v (stepWith v o op).2 ops
+
+theorem C17_offCoherent_run : ∀ (ops : List Op) (o : Obj), OffCoherent o → OffCoherent (finalWith true o ops)
+  | [], _, h => h
+  | op :: ops, o, h => C17_offCoherent_run ops _ (C17_offCoherent_step o op h)
+
+theorem C17_offCoherent_fresh (es : List Elem) (cls : List Nat) (off : Int) : OffCoherent (Obj.fresh es cls off) := by
+  intro tb htb; simp [Obj.fresh] at htb
+
 /-- ... and each such answer is the state of the element whose window contains (t - offset) mod total of the CURRENT
     elements (C17 (a) transported to the object): -/
 theorem C17_hist_query_spec (v : Bool) (o : Obj) (h : Coherent o) (hadm : Admissible o.es) (t : Int) :
